@@ -52,7 +52,7 @@ def run_check(pid, tier, seed):
                 stats.append(eng.verify(short))
                 if k.get("relational"):
                     from pvc import relational
-                    smt_obls += relational.pair_obligations(eng, short, k["relational"])
+                    smt_obls += relational.pair_obligations(eng, short, k["relational"], converse=k.get("relational_converse"))
             except extract.NotFound as e:
                 results.append(Result(f"{short}/function-exists", "exists", "undecided", short, 0, detail={"error": str(e)}))
             except Unsupported as e:
